@@ -47,7 +47,7 @@ class CallCtx:
     """Per public call: fault plan, delivery schedule, counters."""
     __slots__ = ("id", "tid", "step", "method", "faults", "kinds", "seg", "piece", "eintr",
                  "fired", "reply_faults", "nreply", "sent", "received", "commands",
-                 "socks", "obs", "nevents", "pieces_log", "interrupt_seen", "lat")
+                 "socks", "obs", "nevents", "pieces_log", "interrupt_seen", "lat", "rx")
 
     def __init__(self, cid, tid, step, method, faults=None, net=None):
         self.id, self.tid, self.step, self.method = cid, tid, step, method
@@ -69,6 +69,7 @@ class CallCtx:
         self.nevents = 0
         self.pieces_log = []
         self.interrupt_seen = False
+        self.rx = None
 
     def match(self, kind, n):
         for f in self.faults:
@@ -102,6 +103,10 @@ class World:
         self.tls_context = SimTLSContext(self) if self.tls else None
         self.max_open = 0
         self.open_limit = spec.get("open_limit")
+        self.piece_cap = 64
+        self.capture_rx = bool(spec.get("capture_rx"))
+        if self.capture_rx:
+            self.piece_cap = 1 << 16
         for n in spec.get("nodes", ()):
             node = SimNode(self, n["id"], n.get("opts"))
             self.nodes[n["id"]] = node
@@ -514,8 +519,12 @@ class SimSocket:
                 got += take
         data = b"".join(parts)
         ctx.received += got
-        if len(ctx.pieces_log) < 64:
+        if len(ctx.pieces_log) < w.piece_cap:
             ctx.pieces_log.append(got)
+        if w.capture_rx:
+            if ctx.rx is None:
+                ctx.rx = bytearray()
+            ctx.rx += data
         return data
 
     def close(self, _tls=False):
